@@ -609,7 +609,10 @@ class SpawnRunner:
             env["VSHIM_SWAPOPEN"] = "%s|%s|%s" % (prog, sw["victim"], src)
         stuck = []
         try:
-            rc, out, err = sandbox.run_proc(argv, env, stdin=stream, on_timeout=lambda pid: stuck.append(sandbox.stuck_with_zombies(pid)))
+            if sc.get("forkdelay"):
+                env["VSHIM_FORKDELAY"] = "%s:%d" % (prog, sc["forkdelay"])
+            rc, out, err = sandbox.run_proc(argv, env, stdin=stream, timeout=20 + (8 if sc.get("forkdelay") else 0),
+                                            on_timeout=lambda pid: stuck.extend([sandbox.stuck_with_zombies(pid), sandbox.stuck_without_children(pid)]))
         finally:
             if sw:
                 p_ = os.path.join(self.mess, sw["victim"])
@@ -634,6 +637,12 @@ class SpawnRunner:
                 stats.case(scenario=sc, nontrivial=True, classes=sorted(set(cls)) + ["spawner_stuck_with_unreaped_children"])
                 return ("%s sleeps for ever with %d dead children it never reaped (their deliveries get no report): every well-formed command "
                         "must be answered with exactly one report" % (prog, stuck[0]))
+            if len(stuck) > 1 and stuck[1] and cmds:
+                # the whole command stream was there from the start (a file), no child is left, alive or dead, and the spawner sleeps:
+                # nothing can wake it again, the deliveries it forgot get no report and it never ends
+                stats.case(scenario=sc, nontrivial=True, classes=sorted(set(cls)) + ["spawner_stuck_without_children"])
+                return ("%s sleeps for ever although all its children are gone and its input is at end of file (a finished delivery was not noticed): "
+                        "every well-formed command must be answered with exactly one report" % prog)
             stats.inconclusive += 1
             return None
         stats.case(scenario=sc, nontrivial=near, classes=sorted(set(cls)))
@@ -744,6 +753,10 @@ def spawn_sweep():
                 out.append({"part": "spawn", "which": which, "cmds": cmds, "tail": 2, "child": {"exit": ex, "out": j(o)}})
         out.append({"part": "spawn", "which": which, "cmds": [{"d": 1, "m": j(b"1/1"), "s": j(b"s@x"), "r": j(b"r@host")}], "tail": 0,
                     "child": {"exit": 0, "kill": 11, "out": j(b"dying\n")}})
+        # the parent is held up after each fork(): the delivery child finishes before the spawner has noted its pid
+        for n in (1, 3):
+            cmds = [{"d": d, "m": j(b"1/1"), "s": j(b"s@x"), "r": j(b"r@host")} for d in range(n)]
+            out.append({"part": "spawn", "which": which, "cmds": cmds, "tail": 0, "child": {"exit": 0, "out": j(b"Kok\0" if which == "r" else b"ok\n")}, "forkdelay": 120})
         # the name of a foreign-owned message file is re-pointed at a good file between the spawner's open() and its next call
         for victim in ("4/4", "3/3"):
             for cmds in ([{"d": 1, "m": j(victim.encode()), "s": j(b"s@x"), "r": j(b"r@host")}],
